@@ -73,11 +73,20 @@ class Battery:
                 raise SystemExit(3)
             raise PeerFault("injected failure at call %d (%s)" % (self.calls, kind))
 
+    def _ret(self, st):
+        if self.m.get("mutable_state"):
+            if not hasattr(self, "_live"):
+                self._live = [0.0, 0.0, 0.0]
+                self.stats_mutable = True
+            self._live[0], self._live[1], self._live[2] = st
+            return self._live
+        return st
+
     def probe(self):
         self._enter("probe")
         st = self._state()
         self.log.append(("probe", None, None, st))
-        return st
+        return self._ret(st)
 
     def deplete(self, t, i):
         self._enter("deplete")
@@ -86,7 +95,7 @@ class Battery:
         self.sim_seconds += t if math.isfinite(t) else 0.0
         st = self._state()
         self.log.append(("deplete", t, i, st))
-        return st
+        return self._ret(st)
 
 
 def run_batt_life(sess, sysobj, op, passed):
@@ -116,6 +125,8 @@ def run_batt_life(sess, sysobj, op, passed):
         sess.stats["batt_sim_seconds"] += int(bat.sim_seconds)
         if getattr(bat, "fired", False):
             sess.stats["fault_fired:peer_exception_at_k"] += 1
+        if getattr(bat, "stats_mutable", False):
+            sess.stats["peer_returns_one_mutable_list"] += 1
     cols, rows = O.frame_rows(df)
     return {"cols": cols, "rows": rows}
 
